@@ -111,7 +111,7 @@ pub fn gen_case(rng: &mut Rng, profile: &str) -> CongCase {
         return CongCase { hist, pool };
     }
     let (ops, ns, max_names, max_terms, max_unions, depth): (&[&str], usize, usize, usize, usize, usize) = match profile {
-        "m4" => (&["f", "g", "h", "k", "q", "c", "d", "u", "app", "lam"], 4, 4, 4, 4, 1),
+        "m4" => (&["f", "g", "h", "k", "q", "c", "d", "u", "app", "pair", "lam"], 4, 4, 4, 4, 1),
         "binders" => (&["f", "g", "k", "var", "c", "u", "app", "lam", "sum", "let", "bb", "idx"], 3, 4, 5, 4, 2),
         "small" => (&["f", "g", "c", "u"], 2, 2, 3, 2, 1),
         _ => (SYM_OPS_BASIC, 2 + rng.below(2), 3, 6, 5, 2),
@@ -370,6 +370,7 @@ pub fn eval_history(h: &History, focus: Focus, profile: &str, full: bool) -> Cas
             "duplicate" => "family_duplicate",
             "symmetric-user" => "family_symmetric_user",
             "congruence-chain" => "family_congruence_chain",
+            "full-symmetry-pinned-users" => "family_full_symmetry_pinned_users",
             _ => "family_slot_variant",
         });
     }
